@@ -244,7 +244,10 @@ fn one_run(log: &mut EvLog, seed: u64, thorough: bool, mode: &str) {
 
     // ---- fault plan (mode fault): decided after first convergence
     let vanish = mode == "vanish";    // like fault, but the only disturbance is 1..2 ring-adjacent stations that stop for good (or for long)
-    let faulty = mode == "fault" || vanish;
+    let lasttx = mode == "lasttx";    // a telegram is truncated / garbled for everybody and its sender stops right after it
+    let faulty = mode == "fault" || vanish || lasttx;
+    let mut crash_after_tx: Option<usize> = None;
+    let mut lasttx_armed: Option<usize> = None;
     let mut fault_phase = 0; // 0 waiting for convergence, 1 injecting, 2 done (FaultsEnd logged)
     let mut crashes: Vec<(usize, i64, Option<i64>, bool)> = vec![]; // (station, t_crash_us, t_restart_us, mid_tx)
     let mut faults_left = 0usize;
@@ -326,6 +329,43 @@ fn one_run(log: &mut EvLog, seed: u64, thorough: bool, mode: &str) {
         }
         polls += 1;
         st[i].next = t + 1.max(per / 2 + rng.gen_range(0..=per / 2));
+        if std::env::var("PBV_DEBUG").is_ok() && fault_phase == 2 && polls % 3000 == 0 {
+            let v = st[i].fdl.verif_view();
+            log.push(json!({"ev":"Dbg","st":st[i].addr,"t":tt,"state":v.state,"lba":v.last_bus_activity_micros,"pend":v.pending_bytes,"now_us":t}));
+        }
+        if let Some(from) = lasttx_armed {
+            let ntx = bus.borrow().txs.len();
+            if ntx > from {
+                let (is_gap_to_nobody, pending_fault) = {
+                    let b = bus.borrow();
+                    let l = b.txs.last().unwrap();
+                    (l.bytes.len() == 6 && l.bytes[0] == 0x10 && (l.bytes[3] & 0x4F) == 0x49 && !c.addrs.contains(&l.bytes[1]) && l.sender < n, b.fault_at.contains_key(&ntx))
+                };
+                if is_gap_to_nobody && !pending_fault {
+                    let kind = [FaultKind::Truncate, FaultKind::Garble, FaultKind::Truncate][rng.gen_range(0..3)];
+                    bus.borrow_mut().fault_at.insert(ntx, Fault { kind, rcv: None });
+                    crash_after_tx = Some(ntx);
+                    lasttx_armed = None;
+                }
+            }
+        }
+        if let Some(idx) = crash_after_tx {
+            if bus.borrow().txs.len() > idx {
+                // the faulted telegram is on the wire: its sender never polls again (or only much later)
+                let sender = bus.borrow().txs[idx].sender;
+                if sender < n && !st[sender].crashed {
+                    st[sender].crashed = true;
+                    log.push(json!({"ev":"Offline","st":st[sender].addr,"t":tt,"mid_tx":false}));
+                    last_pop_us = t;
+                    if rng.gen_bool(0.3) {
+                        crashes.push((sender, t, Some(t + rng.gen_range(100..800) * slot_us), false));
+                    } else {
+                        st[sender].next = i64::MAX / 4;
+                    }
+                }
+                crash_after_tx = None;
+            }
+        }
 
         // ---- convergence bookkeeping (harness-side, only to decide when to stop / inject)
         if polls % 32 == 0 {
@@ -348,6 +388,20 @@ fn one_run(log: &mut EvLog, seed: u64, thorough: bool, mode: &str) {
                 if faulty && fault_phase == 0 && rotations >= 6 {
                     // inject: 1..4 telegram faults on upcoming transmissions, optional crash/restart
                     fault_phase = 1;
+                    if lasttx {
+                        if rng.gen_bool(0.2) {
+                            let idx = bus.borrow().txs.len() + rng.gen_range(1..40);
+                            let kind = [FaultKind::Truncate, FaultKind::Garble, FaultKind::Truncate][rng.gen_range(0..3)];
+                            bus.borrow_mut().fault_at.insert(idx, Fault { kind, rcv: None });
+                            crash_after_tx = Some(idx);
+                        } else {
+                            // wait for a GAP request to an empty address: the holder's next telegram (its token pass, one
+                            // slot time later) is the one that gets damaged - nobody supervises a pass at that moment
+                            lasttx_armed = Some(bus.borrow().txs.len() + rng.gen_range(1..40));
+                        }
+                        conv_at = None;
+                        continue;
+                    }
                     if vanish {
                         // the successor of a random station stops, and (half of the time, with >= 3 stations left)
                         // the next one in ring order as well - at the same moment or a little later
@@ -388,7 +442,7 @@ fn one_run(log: &mut EvLog, seed: u64, thorough: bool, mode: &str) {
         }
         if faulty && fault_phase == 1 {
             let pending = bus.borrow().fault_at.len();
-            if pending == 0 && crashes.is_empty() && !st.iter().any(|s| s.crashed && s.next < i64::MAX / 8) {
+            if pending == 0 && crash_after_tx.is_none() && lasttx_armed.is_none() && crashes.is_empty() && !st.iter().any(|s| s.crashed && s.next < i64::MAX / 8) {
                 let _ = faults_left;
                 fault_phase = 2;
                 faults_end_us = t;
